@@ -351,4 +351,39 @@ example : portfolioRun true [.passed, .failed 1, .passed, .failed 2, .passed] = 
 example : portfolioRun true [.passed, .passed] = none := by decide
 example : portfolioRun false [.passed, .failed 7] = some .assertion := by decide
 
+/-- The same at the level of the process model: a portfolio step (its members being ordinary runs on
+    fresh threads, in ANY process state `s`) fails iff one of its member runs fails — for the current
+    code and for the fixed code. -/
+theorem portfolio_step_fails_iff_member_fails (s : State) (stop : Bool) (ms : List Run) :
+    (∃ p, (execStep s (.portfolio stop ms)).1.raised = .portfolio (some p)) ↔
+      ∃ r ∈ ms, r.failure.failing = true := by
+  have h := portfolio_fails_iff_member_fails stop (toMembers 0 (runFrom s ms).1)
+  rw [← List.any_eq_true, toMembers_any_failed, runFrom_any_raised, List.any_eq_true] at h
+  rw [← h]
+  simp only [execStep]
+  cases portfolioRun stop (toMembers 0 (runFrom s ms).1) <;> simp
+
+theorem portfolio_step_fails_iff_member_fails_fixed (s : Fixed.State) (stop : Bool) (ms : List Run) :
+    (∃ p, (Fixed.execStep s (.portfolio stop ms)).1.raised = .portfolio (some p)) ↔
+      ∃ r ∈ ms, r.failure.failing = true := by
+  have h := portfolio_fails_iff_member_fails stop (toMembers 0 (Fixed.runFrom s ms).1)
+  rw [← List.any_eq_true, toMembers_any_failed, Fixed.runFrom_any_raised, List.any_eq_true] at h
+  rw [← h]
+  simp only [Fixed.execStep]
+  cases portfolioRun stop (toMembers 0 (Fixed.runFrom s ms).1) <;> simp
+
+/-- F5 reaches portfolio members (fresh threads share the process-wide hook): after a `Print` run, a
+    portfolio with persistence disabled whose two members fail prints two schedules; fixed: none. -/
+theorem portfolio_witness_hook_config :
+    (stepHistory [.single ⟨.print, .pass, 10, 0, 0⟩,
+        .portfolio true [⟨.none, .taskPanic, 1, 0, 1000⟩, ⟨.none, .taskPanic, 1, 0, 1001⟩]]).map (·.emissions)
+      = [[], [⟨.stderr, 1⟩, ⟨.stderr, 1⟩]]
+    ∧ (Fixed.stepHistory [.single ⟨.print, .pass, 10, 0, 0⟩,
+        .portfolio true [⟨.none, .taskPanic, 1, 0, 1000⟩, ⟨.none, .taskPanic, 1, 0, 1001⟩]]).map (·.emissions)
+      = [[], []] := by
+  decide
+
+example : ∃ p, (execStep State.init (.portfolio true [⟨.print, .pass, 3, 0, 7⟩, ⟨.print, .taskPanic, 3, 0, 8⟩])).1.raised
+    = .portfolio (some p) := ⟨.member 1, by decide⟩
+
 end ShuttleModel.C12
